@@ -9,6 +9,18 @@ ROOT = pathlib.Path(__file__).resolve().parent.parent
 
 # id -> (technique, level text, level_note, design_ref)
 CHECKS = {
+    "C12": (
+        "structural monitor on the export: shadow reader following the Rust binding's attribute table (parsed from python.rs at check time) + region / port / link-name / symbol / constant / order-hint / metadata checker against the HUGR",
+        "1500 (quick) / 50000 (thorough) module-rooted builder programs (calls incl. repeated and polymorphic, constants incl. function values, "
+        "order edges, nested conditionals / loops / CFGs, metadata) are exported with to_model(); the tree is read through exactly the "
+        "attributes python.rs reads (and the model dataclasses are compared with that table and the constructor argument order); regions "
+        "must mirror the hierarchy, nodes list exactly their signature's value/control ports, two listed ports share a link name iff an "
+        "edge joins them with the (1,n)/(n,1) hyperedge rule, applied function symbols must be the callee's, loaded constants must be "
+        "inlined, every sibling order edge must appear as a hint with matching keys, metadata must be carried over.",
+        "Trusted: vf/props/c12.py checker, wire port tables. Term spelling of types vs hugr-core's exporter and the text/binary encodings are "
+        "out of reach (native module absent).",
+        "DESIGN.md §3 C12",
+    ),
     "C11": (
         "metamorphic monitor: structural view before resolution + rule-computed expectation vs the view after resolve(); wire / model / derived-fact invariance; idempotence",
         "6000 (quick) / 200000 (thorough) type expressions (opaque types nested in sums, function types, polymorphic bodies, type and sequence "
